@@ -381,7 +381,13 @@ func mergeRoots(
 
 			newTree, err := tree.Clone(ctx)
 			if err != nil {
-				if cfg.LogFunc != nil && skipUnreadable {
+				var ae awserr.Error
+				if !(errors.As(err, &ae) && ae.Code() == s3.ErrCodeNoSuchKey && skipUnreadable) {
+					// a transport error is not a deleted version: fail instead of
+					// returning a view that silently lacks this version
+					return nil, nil, 0, fmt.Errorf("clone for merging %v: %w", key, err)
+				}
+				if cfg.LogFunc != nil {
 					cfg.LogFunc(fmt.Sprintf("skipping merge un-cloneable tree %v: %v", key, err))
 				}
 				continue
